@@ -622,6 +622,20 @@ func BackSlice(v ssa.Value, o SliceOpts) map[ssa.Value]bool {
 			push(t.X)
 		case *ssa.SliceToArrayPointer:
 			push(t.X)
+		case *ssa.Next:
+			push(t.Iter)
+		case *ssa.Range:
+			push(t.X)
+		case *ssa.MakeMap, *ssa.MakeSlice:
+			// contents arrive through MapUpdate / element stores: follow the referrers that write
+			if refs := x.Referrers(); refs != nil {
+				for _, ref := range *refs {
+					if mu, ok := ref.(*ssa.MapUpdate); ok && mu.Map == x {
+						push(mu.Key)
+						push(mu.Value)
+					}
+				}
+			}
 		case *ssa.MakeClosure:
 			for _, b := range t.Bindings {
 				push(b)
